@@ -29,10 +29,11 @@ fn ctype(rng: &mut StdRng, via: &str) -> (&'static str, Option<i64>, Option<i64>
     if via == "struct" {
         return ("INT", Some(-32768), Some(32767));
     }
-    match rng.gen_range(0..5) {
+    match rng.gen_range(0..6) {
         0 | 1 => ("INT", Some(-32768), Some(32767)),
         2 => ("DINT", Some(-2147483648), Some(2147483647)),
         3 => ("UDINT", Some(0), None),
+        4 => ("ULINT", Some(0), None),
         _ => ("LINT", None, None),
     }
 }
@@ -63,7 +64,8 @@ fn gen_script(rng: &mut StdRng, kind: &str, via: &str) -> J {
     };
     for k in 0..n {
         let i = rng.gen_range(1..=2usize);
-        let dt: i64 = if k == 0 { 0 } else { [0, 0, 1, 2, 3, 5, 7][rng.gen_range(0..7)] };
+        // mostly small steps (PT 1..7 is crossed step by step), now and then one that jumps far beyond PT
+        let dt: i64 = if k == 0 { 0 } else if rng.gen_bool(0.85) { [0, 0, 1, 2, 3, 5, 7][rng.gen_range(0..7)] } else { [50, 993, 1000, 1001, 5000][rng.gen_range(0..5)] };
         let b = |rng: &mut StdRng, p: f64| rng.gen_bool(p);
         let input = match kind {
             "TON" | "TOF" | "TP" => {
@@ -92,7 +94,18 @@ fn gen_script(rng: &mut StdRng, kind: &str, via: &str) -> J {
         }
         steps.push(json!({"a": "Call", "i": i, "in": input, "dt": dt}));
     }
-    json!({"kind": kind, "via": via, "ctype": ct, "hasLo": lo.is_some(), "lo": lo.unwrap_or(0), "hasHi": hi.is_some(), "hi": hi.unwrap_or(0), "steps": steps})
+    // the other names the same blocks are registered under (TON_LTIME, DIFU / DIFD, CTU_INT): same model
+    let variant = if via == "st" && rng.gen_bool(0.3) {
+        match kind {
+            "TON" | "TOF" | "TP" => "LTIME",
+            "R_TRIG" | "F_TRIG" => "ALIAS",
+            "CTU" | "CTD" | "CTUD" if ct == "INT" => "SUFFIX",
+            _ => "",
+        }
+    } else {
+        ""
+    };
+    json!({"kind": kind, "via": via, "ctype": ct, "variant": variant, "hasLo": lo.is_some(), "lo": lo.unwrap_or(0), "hasHi": hi.is_some(), "hi": hi.unwrap_or(0), "steps": steps})
 }
 
 fn ms(d: Duration) -> i64 {
@@ -164,20 +177,21 @@ fn step_struct(s: &mut S, input: &J, delta: i64) -> J {
     }
 }
 
-pub fn st_source(kind: &str, ct: &str) -> String {
+pub fn st_source(kind: &str, ct: &str, variant: &str) -> String {
+    let tt = if variant == "LTIME" { "LTIME" } else { "TIME" };
     let (fb, decl, call): (String, String, Box<dyn Fn(usize) -> String>) = match kind {
-        "TON" | "TOF" | "TP" => (kind.into(), "xin : BOOL; xpt : TIME; oq1 : BOOL; oq2 : BOOL; oe1 : TIME; oe2 : TIME;".into(),
+        "TON" | "TOF" | "TP" => (if variant == "LTIME" { format!("{kind}_LTIME") } else { kind.into() }, format!("xin : BOOL; xpt : {tt}; oq1 : BOOL; oq2 : BOOL; oe1 : {tt}; oe2 : {tt};"),
             Box::new(|i| format!("f{i}(IN := xin, PT := xpt, Q => oq{i}, ET => oe{i});"))),
-        "CTU" => (if ct == "INT" { "CTU".into() } else { format!("CTU_{ct}") },
+        "CTU" => (if ct == "INT" && variant != "SUFFIX" { "CTU".into() } else { format!("CTU_{ct}") },
             format!("xcu : BOOL; xr : BOOL; xpv : {ct}; oq1 : BOOL; oq2 : BOOL; ocv1 : {ct}; ocv2 : {ct};"),
             Box::new(|i| format!("f{i}(CU := xcu, R := xr, PV := xpv, Q => oq{i}, CV => ocv{i});"))),
-        "CTD" => (if ct == "INT" { "CTD".into() } else { format!("CTD_{ct}") },
+        "CTD" => (if ct == "INT" && variant != "SUFFIX" { "CTD".into() } else { format!("CTD_{ct}") },
             format!("xcd : BOOL; xld : BOOL; xpv : {ct}; oq1 : BOOL; oq2 : BOOL; ocv1 : {ct}; ocv2 : {ct};"),
             Box::new(|i| format!("f{i}(CD := xcd, LD := xld, PV := xpv, Q => oq{i}, CV => ocv{i});"))),
-        "CTUD" => (if ct == "INT" { "CTUD".into() } else { format!("CTUD_{ct}") },
+        "CTUD" => (if ct == "INT" && variant != "SUFFIX" { "CTUD".into() } else { format!("CTUD_{ct}") },
             format!("xcu : BOOL; xcd : BOOL; xr : BOOL; xld : BOOL; xpv : {ct}; oqu1 : BOOL; oqu2 : BOOL; oqd1 : BOOL; oqd2 : BOOL; ocv1 : {ct}; ocv2 : {ct};"),
             Box::new(|i| format!("f{i}(CU := xcu, CD := xcd, R := xr, LD := xld, PV := xpv, QU => oqu{i}, QD => oqd{i}, CV => ocv{i});"))),
-        "R_TRIG" | "F_TRIG" => (kind.into(), "xclk : BOOL; oq1 : BOOL; oq2 : BOOL;".into(),
+        "R_TRIG" | "F_TRIG" => (if variant == "ALIAS" { if kind == "R_TRIG" { "DIFU".into() } else { "DIFD".into() } } else { kind.into() }, "xclk : BOOL; oq1 : BOOL; oq2 : BOOL;".into(),
             Box::new(|i| format!("f{i}(CLK := xclk, Q => oq{i});"))),
         "SR" => ("SR".into(), "xs : BOOL; xr : BOOL; oq1 : BOOL; oq2 : BOOL;".into(),
             Box::new(|i| format!("f{i}(S1 := xs, R := xr, Q1 => oq{i});"))),
@@ -239,7 +253,8 @@ fn run_script(sc: &J, o: &mut Out) {
         }
         return;
     }
-    let src = st_source(kind, ct);
+    let variant = sc["variant"].as_str().unwrap_or("");
+    let src = st_source(kind, ct, variant);
     let mut h = TestHarness::from_source(&src).unwrap_or_else(|e| panic!("StdFb program rejected: {e}\n{src}"));
     for st in sc["steps"].as_array().unwrap() {
         let i = st["i"].as_u64().unwrap() as usize;
@@ -260,7 +275,8 @@ fn run_script(sc: &J, o: &mut Out) {
         match kind {
             "TON" | "TOF" | "TP" => {
                 h.set_input("xin", Value::Bool(bo(input, "in")));
-                h.set_input("xpt", Value::Time(Duration::from_millis(input["pt"].as_i64().unwrap())));
+                let pt = Duration::from_millis(input["pt"].as_i64().unwrap());
+                h.set_input("xpt", if variant == "LTIME" { Value::LTime(pt) } else { Value::Time(pt) });
             }
             "CTU" | "CTD" | "CTUD" => {
                 for (k, v) in [("cu", "xcu"), ("cd", "xcd"), ("r", "xr"), ("ld", "xld")] {
